@@ -261,6 +261,28 @@ def run(tier, rep):
             rep.violation('C09|reentrant-close|close callbacks ran %s times' % ro.get('callbacks'), {'mode': 'lifereenter', 'observation': ro})
     else:
         rep.inconc('re-entrant Close probe: %s' % common.short(ro, 300))
+    # "module close callbacks have run exactly once" over module histories (direct mode lifemods): failing then successful imports of a
+    # registered module with a close callback, repeated imports, a second module; a counter per module object
+    rd = common.scratch_dir('vrun-lifemods-')
+    try:
+        outp = os.path.join(rd, 'out.json')
+        try:
+            subprocess.run([binary, '-mode', 'lifemods', '-out', outp], stdout=subprocess.DEVNULL, stderr=subprocess.DEVNULL, env=env, timeout=300, cwd=rd)
+            mo = json.load(open(outp))
+        except Exception as e:
+            mo = {'error': repr(e)}
+    finally:
+        shutil.rmtree(rd, ignore_errors=True)
+    if 'sequences' not in mo or not mo.get('bodies_run'):
+        rep.inconc('module-history probe: %s' % common.short(mo, 300))
+    else:
+        rep.evaluations += mo['sequences']
+        for k in mo.get('outcomes') or {}:
+            nontriv.add(('module-history', k))
+        seenw = set()
+        for v in mo.get('violations') or []:
+            what = re.sub(r'\d+ times', 'N times', v['what'])
+            rep.violation('C09|module-history|%s' % what[:90], {'mode': 'lifemods', 'sequence (F = import whose body fails, S = succeeds, 2 = second module)': v['seq'], 'what': v['what']})
     rep.nontrivial = nontriv
     rep.samples = samples or [{'scenarios': [s[0] for s in S]}]
     rep.rule = ('controlled scheduler at the H1 lifecycle yield points: stateless DFS over all interleavings per scenario (fine = every yield point incl. inside the lock; coarse = lock-external points; '
